@@ -15,7 +15,7 @@ import weakref
 from enum import Enum
 import numpy
 
-from .backend import np
+from .backend import np, KGChar
 
 
 # python3.11 support
@@ -134,10 +134,6 @@ class KGAdverb:
     def __init__(self, a, arity):
         self.a = a
         self.arity = arity
-
-
-class KGChar(str):
-    pass
 
 
 class KGCond(list):
